@@ -481,6 +481,13 @@ func c01Exec(c *c01Case, wc int, delay int64) (*c01Run, error) {
 			if n > 0 && n <= len(p) {
 				r.expected = append(r.expected, p[:n]...)
 			}
+			// io.Writer: "implementations must not retain p". The caller
+			// recycles its buffer as soon as Write has returned (as
+			// io.CopyBuffer or a pooled scratch buffer would), so a writer that
+			// still reads p from a compressor goroutine emits other bytes.
+			for i := range p {
+				p[i] ^= 0xa5
+			}
 			acc += int64(n)
 		case "f":
 			err := w.Flush()
